@@ -219,7 +219,7 @@ def c20_run(c):
     hdir = os.path.dirname(os.path.dirname(c["exe"])) if False else None
     # harness source directory: the one the main build used
     src = os.path.join(c["build"], "alt-" + hashlib.sha1(c["repo"].encode()).hexdigest()[:8], "harness") if c["repo"] != "/repo" else os.path.join(c["verif"], "harness")
-    streams = "enc,rt,mut,rand,exh,decall,count,skip,big"
+    streams = "enc,rt,mut,rand,exh,decall,count,skip,big,append,mem,bigmem"
 
     def build(i):
         name, feats = cfgs[i]
@@ -310,7 +310,7 @@ PROPS = {
                         "leading_zeros is modelled as W - bitLen (Nat.log2)"],
     },
     "C01": {
-        "streams": ["enc", "big", "sinks"],
+        "streams": ["enc", "big", "sinks", "hist"],
         # bytes written by encode_to into any sink are part of C01's observation point
         "also_oracles": ["C07"],
         "disagreement_is_violation": True,
@@ -339,7 +339,7 @@ PROPS = {
     },
     "C03": {
         "custom": c03_run,
-        "streams": ["mut", "rand", "exh", "utf8", "big", "dvl"],
+        "streams": ["mut", "rand", "exh", "utf8", "big", "dvl", "userext"],
         "disagreement_is_violation": True,
         "rule": "dec requests for every catalogue type on four byte-string streams: mutations of valid encodings (bit flips, boundary bytes, truncation, extension, count tampering at the front and at inner positions with {0,1,2,63..65,2^14-1,2^14,2^30-1,2^30,2^32-2,2^32-1}, splices, insert/delete), random strings (tag-biased), exhaustive strings of length <=1 for all types and <=2 for small-alphabet types (boundary alphabet otherwise), and the UTF-8 stream (all 1-2 byte strings, 3-byte strings with lead E0..EF x all second bytes, boundary 4-byte forms); every call in catch_unwind. non-trivial = distinct request whose model answer is not `err` Also: `decpos` requests (where the slice stands after a FAILED decode); implementation-side oracles in `big`: 2^29-1 bits accepted and 2^29 bits rejected with 64 MiB of storage words present; straddling strings; 160 random compositions. Also the `dvl` stream: the public decode_vec_with_len called directly with any length (incl. 2^32, usize::MAX/size ± 1, usize::MAX) over a slice and an unknown-length input.",
         "level_text": "Proved in Lean for every byte string: the modelled decoder is total (kernel-accepted recursion) and never panics (the unreachable!/assert!/UNEXPECTED ERROR sites are dead); it consumes a prefix only; for every wire-canonical type (all but maps/sets/heaps/bit sequences) decode bs = (ok v, rest) IFF wf v and bs = SCALE-encoding(v) ++ rest - the decoder accepts exactly the SCALE language; for EVERY type without bit sequences, incl. maps/sets/heaps at any nesting, decode bs = (ok v, rest) IFF bs = SCALE-encoding(raw) ++ rest for some well-formed raw and v = raw order-normalised (heaps sorted, maps/sets rebuilt by from_iter: any order and duplicates accepted, later entry wins) - via the theorem that such a decoder IS the decoder of the same type with plain sequences followed by normalisation, on every input; bit sequences: accepted inputs are exactly count <= 2^29-1 plus ceil(n/w) words of any content, value = first n unpacked bits (padding not inspected); each rejection the property names is a theorem (bad tags for bool/Option/Result/OptionBool, unknown variant index, zero NonZero, nanos >= 10^9, invalid UTF-8, non-minimal/over-wide compact, > 2^29-1 bits, primitive count exceeding the data). The model is tied to the crate on ~10^5 hostile and random strings per run incl. an exhaustive-prefix UTF-8 stream.",
@@ -348,7 +348,7 @@ PROPS = {
         "assumptions": ["recursive derived types are unfolded deeper than the input is long"],
     },
     "C18": {
-        "streams": ["skip", "len", "big"],
+        "streams": ["skip", "len", "big", "userext"],
         "rule": "skip vs dec (outcome and remaining length) for every catalogue type on valid+suffix, mutated, truncated and exact encodings; encoded_fixed_size() of every catalogue type vs the model; DecodeLength::len on generated values (incl. 20k-element ones) of the six collections and of tuples led by them, and on mutated strings. Oracles on the implementation: skip == decode (ok-ness and position), len == true element count, fixed size == every value's size. non-trivial = distinct request whose model answer is not `err` Also: every count-prefix class boundary as a bare prefix; skip through an unknown-length input and IoReader; skip under memory limits; long strings with a character cut short at 4 KiB multiples followed by ASCII (skip must fail like decode).",
         "level_text": "Proved in Lean: DecodeLength::len on encode(coll) ++ rest is the element count, for all six collection kinds and tuples led by them; for every type and every byte string skip succeeds iff decode succeeds and then leaves the input at the same position (including the [T;N] override that skips fixed-size elements one at a time while decode reads them in bulk - shown equivalent to one bulk read); a reported encoded_fixed_size is the length of every value's encoding. Tied to the crate by the skip/len streams and oracles.",
         "level_note": "Trusted: as C01. After a *failed* skip/decode the position of the input is not compared (the bulk decode leaves a slice untouched where the element-wise skip has consumed some elements; the property speaks of success position and of failing exactly when decode fails).",
@@ -364,7 +364,7 @@ PROPS = {
         "assumptions": ["the wrapped input does not override scale_internal_decode_bytes (true of every input CountedInput can wrap through its public constructor: the override is not forwarded)"],
     },
     "C11": {
-        "streams": ["limit", "decall", "big"],
+        "streams": ["limit", "decall", "big", "userext"],
         "rule": "limit requests: for every catalogue type (nesting Vec, Box, Rc, Arc, BTreeMap, BTreeSet, LinkedList, VecDeque, BinaryHeap, Option, tuples, recursive derived Tree/Chain) on valid, mutated and suffixed encodings, every limit L = 0..need+2 (need = least succeeding limit, scan capped at 12 when none succeeds): value, remaining compared with the model; oracles: transparent (ok => equals unlimited), monotone in L, some limit succeeds when unlimited does; decode_all_with_depth_limit vs decode. non-trivial = distinct request whose model answer is not `err`; for every untampered encoding the least sufficient limit observed on the real crate is compared with the model's nesting(ty, v) Also: every limit of the limit stream repeated through a decoder that reads via CountedInput (ViaCounted<T>); `big`: 2502-item vectors whose only nested item lies behind the first preallocation chunk, wide sibling holders.",
         "level_text": "Proved in Lean for every type, byte string and limit (lax simulation theorem over all decoder programs between the unlimited input, a depth-recording specification input and the transliterated DepthTrackingInput): limited decoding returns exactly the unlimited result (value and position) or an error; when unlimited decoding succeeds, the limited one succeeds with the same result IFF L >= need, where need is the maximal number of simultaneously open descend_ref calls of the unlimited run (hence monotone in L, success for all L >= need, failure for all L < need); decode_all_with_depth_limit succeeds iff decode_with_depth_limit succeeds with nothing left. Tied to the crate by the limit stream over all L around the threshold. The abstract needed depth is made concrete by the hook-trace theorem (Proofs/HookTrace.lean: decoding the encoding of ANY well-formed value makes exactly the hook calls hookTrace ty v, through the chunked, bulk and from_iter paths): needDepth = nesting ty v, the container nesting of the value (Box/Rc/Arc, lists, tree maps/sets and element-wise vectors cost a level; vectors of primitives, strings, byte buffers, bit sequences none; components take the maximum) - hence limited decoding of an encoding succeeds IFF nesting <= L (succeeds_iff_nesting_le, deeper_than_limit_rejected), and the depth counter returns to where it started (depth_balanced: siblings do not accumulate).",
         "level_note": "Trusted: as C01. Partial: (1) 'stack-safe' - the theorem bounds the number of open descend_ref levels, i.e. decoder frames of heap-allocating containers, not machine stack bytes; survival of 10^6-deep input on a small stack is a harness observation (thorough tier), not a theorem. (2) need <= value nesting depth is checked by the tie (every L from 0), the theorem fixes need as a property of the unlimited run.",
@@ -413,7 +413,7 @@ PROPS = {
         "assumptions": ["as C01"],
     },
     "C16": {
-        "streams": ["like"],
+        "streams": ["like", "hist"],
         "disagreement_is_violation": True,
         "rule": "(i) the crate's EncodeLike table observed by compile-time trait probes over all ordered pairs of ~55 representative types (owned, &T, &&T, &mut T, Box/Rc/Arc/Cow, Option/Result/array/tuple with alias elements, Vec/&[T]/VecDeque/LinkedList/BinaryHeap/BTreeSet/BTreeMap and their entry slices, String/&str, Vec<u8>/&[u8]/Bytes, Ref<T,U>, a derived type): every pair the crate declares is sent to the model's decision procedure encodesLike, which must accept it (a wrongly added impl such as u32: EncodeLike<u64> flips a probe and is rejected by the model); (ii) for ~30 declared pairs, generated values of A (built as borrowed / boxed / converted views of an owned value) are encoded, decoded as B (compared with the model), and checked on the implementation: decodes completely, re-encodes to the same bytes (unless B normalises), and equals the encoding of the value the alias stands for. non-trivial = distinct request whose model answer is not `err` Also: compact references at value level (CompactRef(&x) for all five widths and through CompactAs, &Compact, Box<Compact>).",
         "level_text": "Proved in Lean: the SCALE encoding of a value depends only on the shape of its type - holders (Box/Rc/Arc; &T, &mut T, Cow, Ref are already the held type) and the flavour of a count-prefixed collection (vector, slice, deque, list, heap, set, map entries) are invisible - so types of equal shape encode every value byte-for-byte alike, and the bytes of a value of A decode as B to the corresponding logical value, normalised as B normalises (entries decoded as a map come back sorted); byte buffers encode like sequences of u8, strings like byte buffers, (T,) / single-field structs like the field, &[(T,)] like a set of T; each impl family of the crate is an instance. The decision procedure encodesLike is tied to the crate by the probe matrix: every declared pair must be accepted.",
@@ -453,7 +453,7 @@ PROPS = {
         "streams": [],
         "custom": c20_run,
         "disagreement_is_violation": True,
-        "rule": "the harness is built against the crate in 4 feature configurations (8 thorough): std+chain-error with all optional integrations (default); no_std+alloc with all; no_std+chain-error with all; no_std+alloc with bit-vec/bytes/generic-array off (derive and max-encoded-len stay on: the harness's own types need them); thorough adds std with each optional integration alone and with none. The same deterministic corpus (streams enc, rt, mut, rand, exh, decall, count, skip over every catalogue type available in that configuration; seed in the evidence) runs in each build; every configuration's answers are compared with the SAME model answers and, request by request, with each other; a digest per configuration is recorded. non-trivial = distinct request whose model answer is not `err`",
+        "rule": "the harness is built against the crate in 4 feature configurations (8 thorough): std+chain-error with all optional integrations (default); no_std+alloc with all; no_std+chain-error with all; no_std+alloc with bit-vec/bytes/generic-array off (derive and max-encoded-len stay on: the harness's own types need them); thorough adds std with each optional integration alone and with none. The same deterministic corpus (streams enc, rt, mut, rand, exh, decall, count, skip, mem over every catalogue type, plus big, bigmem and append available in that configuration; seed in the evidence) runs in each build; every configuration's answers are compared with the SAME model answers and, request by request, with each other; a digest per configuration is recorded. non-trivial = distinct request whose model answer is not `err`",
         "level_text": "Decided by the correspondence: identical bytes, accept/reject decisions and values in every feature configuration, each equal to the model. Proved in Lean (what a configuration can legitimately touch): the no_std Output instance (Vec::extend_from_slice) and the std one (io::Write::write_all over a writer accepting arbitrary short writes) are both appending sinks and therefore observe the same byte string however the encoder splits its output; the model's failure value carries no information, so no modelled decision can depend on an error's description (chain-error).",
         "level_note": "Partial by nature: a theorem cannot see a cfg-gated code path the model does not have; only the per-configuration runs can. derive and max-encoded-len are on in every configuration because the harness's own catalogue types derive them; the optional integrations are toggled. Error descriptions are not compared (only ok/err).",
         "trusted_base": COMMON_TB + ["cargo feature resolution"],
